@@ -479,12 +479,39 @@ fn variants_part(ctx: &Ctx) {
         },
     );
     transitions += res2.accs.iter().sum::<u64>();
+    // character data in its degenerate forms (text, white-space-only text, empty CDATA sections): every
+    // ordered pair of documents, and the pair followed by the first document again
+    let cd: Vec<DocEntry> = materialise(chardata_cfg(ctx.tier.pick(3, 4)));
+    let c = cd.len() as u64;
+    let res3 = crate::par::par_for(
+        c * c,
+        ctx.threads,
+        64,
+        Some(ctx.deadline),
+        |_| 0u64,
+        |acc, idx| {
+            let a = &cd[(idx / c) as usize];
+            let b = &cd[(idx % c) as usize];
+            let rank = (1 << 55) | idx;
+            if let Ok(el0) = run_history(&[a]) {
+                if step(&el0, &[a], b, rank) {
+                    *acc += 1;
+                    if let Ok(el1) = run_history(&[a, b]) {
+                        if step(&el1, &[a, b], a, rank) {
+                            *acc += 1;
+                        }
+                    }
+                }
+            }
+        },
+    );
+    transitions += res3.accs.iter().sum::<u64>();
     ctx.add("transitions", transitions);
     ctx.set(
         "document_variants",
-        json!({"pairs_over_alphabet": res.processed, "wrappers": wrappers.len(), "attribute_heavy_space": sp.cfg.describe(), "attribute_heavy_documents": m, "attribute_heavy_pairs": res2.processed, "transitions": transitions}),
+        json!({"chardata_documents": c, "chardata_pairs": res3.processed, "pairs_over_alphabet": res.processed, "wrappers": wrappers.len(), "attribute_heavy_space": sp.cfg.describe(), "attribute_heavy_documents": m, "attribute_heavy_pairs": res2.processed, "transitions": transitions}),
     );
-    if !res.complete || !res2.complete {
+    if !res.complete || !res2.complete || !res3.complete {
         ctx.set("exhaustive", json!(false));
         ctx.push("caps", json!("wall or memory budget reached in the part `document variants`: see its done / total counters"));
     }
